@@ -626,7 +626,10 @@ def bind(body: Rat) -> Rat:
 
 
 def mk_reduce(head: str, body: Rat, length: Rat) -> Rat:
-    """Mean / Std / Min / Max over $i < length"""
+    """Mean / Std / Min / Max over $i < length; the mean is the sum divided by the count (so `a.sum() / len(a)`, `np.dot(a, a) / a.size` and
+    `np.mean(a ** 2)` are one value)"""
+    if head == 'Mean' and not length.is_zero():
+        return mk_sum(body, length) / length
     return A(head, bind(body), length)
 
 
